@@ -1,1 +1,1337 @@
-pub fn placeholder() {}
+//! Shared "rule world": abstract rule / request specifications, their JSON form fed to the library,
+//! the generators over deliberately tiny alphabets, and the flat reference predicate `sat`
+//! (written from the statement of C01; it never calls the library's matchers, trees or `into_route`).
+
+use crate::prng::Rng;
+use chrono::{DateTime, Datelike, NaiveTime, Utc, Weekday};
+use redirectionio::api::Rule;
+use redirectionio::http::{PathAndQueryWithSkipped, Request};
+use redirectionio::router::Router;
+use redirectionio::RouterConfig;
+use regex::{Regex, RegexBuilder};
+use serde::{Deserialize, Serialize};
+use serde_json::{json, Map, Value};
+use std::net::IpAddr;
+use std::str::FromStr;
+
+// ---------------------------------------------------------------------------------------------
+// configuration
+
+#[derive(Clone, Debug, Serialize, Deserialize, PartialEq, Eq, Hash)]
+pub struct Cfg {
+    pub ignore_host_case: bool,
+    pub ignore_header_case: bool,
+    pub ignore_path_and_query_case: bool,
+    pub ignore_marketing_query_params: bool,
+    pub pass_marketing_query_params_to_target: bool,
+    pub always_match_any_host: bool,
+    pub marketing_query_params: Vec<String>,
+}
+
+impl Cfg {
+    pub fn plain() -> Cfg {
+        Cfg {
+            ignore_host_case: false,
+            ignore_header_case: false,
+            ignore_path_and_query_case: false,
+            ignore_marketing_query_params: true,
+            pass_marketing_query_params_to_target: true,
+            always_match_any_host: false,
+            marketing_query_params: vec!["utm_source".into(), "utm_medium".into(), "utm_campaign".into()],
+        }
+    }
+
+    pub fn to_json(&self) -> Value {
+        json!({
+            "ignore_host_case": self.ignore_host_case,
+            "ignore_header_case": self.ignore_header_case,
+            "ignore_path_and_query_case": self.ignore_path_and_query_case,
+            "ignore_marketing_query_params": self.ignore_marketing_query_params,
+            "pass_marketing_query_params_to_target": self.pass_marketing_query_params_to_target,
+            "always_match_any_host": self.always_match_any_host,
+            "marketing_query_params": self.marketing_query_params,
+        })
+    }
+
+    pub fn build(&self) -> RouterConfig {
+        serde_json::from_value(self.to_json()).expect("router config json")
+    }
+
+    /// flags relevant for matching, from 6 bits
+    pub fn from_bits(bits: u32) -> Cfg {
+        let mut c = Cfg::plain();
+        c.ignore_host_case = bits & 1 != 0;
+        c.ignore_header_case = bits & 2 != 0;
+        c.ignore_path_and_query_case = bits & 4 != 0;
+        c.always_match_any_host = bits & 8 != 0;
+        c.ignore_marketing_query_params = bits & 16 != 0;
+        c.pass_marketing_query_params_to_target = bits & 32 != 0;
+        c
+    }
+
+    pub fn random(rng: &mut Rng) -> Cfg {
+        Cfg::from_bits(rng.below(64) as u32)
+    }
+}
+
+// ---------------------------------------------------------------------------------------------
+// templates with markers
+
+#[derive(Clone, Debug, Serialize, Deserialize, PartialEq, Eq)]
+pub struct MarkerSpec {
+    pub name: String,
+    pub regex: String,
+    #[serde(default)]
+    pub transformers: Vec<Value>,
+}
+
+#[derive(Clone, Debug, Serialize, Deserialize, PartialEq, Eq)]
+pub enum Piece {
+    Lit(String),
+    /// reference to a marker by name
+    Mark(String),
+}
+
+#[derive(Clone, Debug, Serialize, Deserialize, PartialEq, Eq)]
+pub struct Template {
+    pub pieces: Vec<Piece>,
+}
+
+impl Template {
+    pub fn lit(s: &str) -> Template {
+        Template {
+            pieces: vec![Piece::Lit(s.to_string())],
+        }
+    }
+
+    pub fn parse(s: &str) -> Template {
+        // "@name" where name is [A-Za-z0-9_]+ ; used only for harness-side literals
+        let mut pieces = Vec::new();
+        let mut cur = String::new();
+        let chars: Vec<char> = s.chars().collect();
+        let mut i = 0;
+        while i < chars.len() {
+            if chars[i] == '@' {
+                let mut j = i + 1;
+                let mut name = String::new();
+                while j < chars.len() && (chars[j].is_ascii_alphanumeric() || chars[j] == '_') {
+                    name.push(chars[j]);
+                    j += 1;
+                }
+                if !name.is_empty() {
+                    if !cur.is_empty() {
+                        pieces.push(Piece::Lit(std::mem::take(&mut cur)));
+                    }
+                    pieces.push(Piece::Mark(name));
+                    i = j;
+                    continue;
+                }
+            }
+            cur.push(chars[i]);
+            i += 1;
+        }
+        if !cur.is_empty() {
+            pieces.push(Piece::Lit(cur));
+        }
+        Template { pieces }
+    }
+
+    pub fn text(&self) -> String {
+        let mut s = String::new();
+        for p in &self.pieces {
+            match p {
+                Piece::Lit(l) => s.push_str(l),
+                Piece::Mark(m) => {
+                    s.push('@');
+                    s.push_str(m);
+                }
+            }
+        }
+        s
+    }
+
+    pub fn has_marker(&self) -> bool {
+        self.pieces.iter().any(|p| matches!(p, Piece::Mark(_)))
+    }
+
+    pub fn marker_names(&self) -> Vec<String> {
+        self.pieces
+            .iter()
+            .filter_map(|p| match p {
+                Piece::Mark(m) => Some(m.clone()),
+                _ => None,
+            })
+            .collect()
+    }
+
+    /// model-side regex source: escaped literals + (?:marker regex); `encode` maps a literal to the
+    /// form the library stores (identity for hosts/headers, URL sanitising for paths)
+    pub fn regex_source(&self, markers: &[MarkerSpec], encode: &dyn Fn(&str) -> String) -> String {
+        let mut s = String::new();
+        for p in &self.pieces {
+            match p {
+                Piece::Lit(l) => s.push_str(&regex::escape(&encode(l))),
+                Piece::Mark(m) => {
+                    let re = markers.iter().find(|k| k.name == *m).map(|k| k.regex.as_str()).unwrap_or("");
+                    s.push_str("(?:");
+                    s.push_str(re);
+                    s.push(')');
+                }
+            }
+        }
+        s
+    }
+}
+
+// ---------------------------------------------------------------------------------------------
+// rule specification
+
+#[derive(Clone, Debug, Serialize, Deserialize, PartialEq, Eq)]
+pub enum IpSpec {
+    In(String),
+    NotIn(String),
+}
+
+#[derive(Clone, Debug, Serialize, Deserialize, PartialEq, Eq)]
+pub struct HeaderCond {
+    pub name: String,
+    pub kind: String,
+    pub value: Option<Template>,
+}
+
+#[derive(Clone, Debug, Serialize, Deserialize, PartialEq, Eq, Default)]
+pub struct Effects {
+    pub status_code: Option<u16>,
+    pub target: Option<String>,
+    pub response_status_codes: Option<Vec<u16>>,
+    /// presence-encoded (None = absent, Some(true) = exclusion)
+    pub exclude_response_status_codes: Option<bool>,
+    /// (action, header, value)
+    pub header_filters: Vec<(String, String, String)>,
+    /// raw BodyFilter JSON objects
+    pub body_filters: Vec<Value>,
+    pub log_override: Option<bool>,
+    pub reset: Option<bool>,
+    pub stop: Option<bool>,
+    pub sampling: Option<u32>,
+    pub redirect_unit_id: Option<String>,
+    pub configuration_log_unit_id: Option<String>,
+    pub configuration_reset_unit_id: Option<String>,
+    pub variables: Vec<Value>,
+    pub examples: Option<Vec<Value>>,
+}
+
+#[derive(Clone, Debug, Serialize, Deserialize, PartialEq, Eq)]
+pub struct RuleSpec {
+    pub id: String,
+    pub rank: u16,
+    pub scheme: Option<String>,
+    pub host: Option<Template>,
+    pub ips: Option<Vec<IpSpec>>,
+    pub methods: Option<Vec<String>>,
+    pub exclude_methods: Option<bool>,
+    pub headers: Vec<HeaderCond>,
+    /// (start, end) RFC 3339 strings
+    pub datetime: Option<Vec<(Option<String>, Option<String>)>>,
+    /// (start, end) HH:MM:SS strings
+    pub time: Option<Vec<(Option<String>, Option<String>)>>,
+    pub weekdays: Option<Vec<String>>,
+    /// path template, may contain a query part after '?'
+    pub path: Template,
+    pub markers: Vec<MarkerSpec>,
+    pub effects: Effects,
+}
+
+impl RuleSpec {
+    pub fn simple(id: &str, path: &str) -> RuleSpec {
+        RuleSpec {
+            id: id.to_string(),
+            rank: 0,
+            scheme: None,
+            host: None,
+            ips: None,
+            methods: None,
+            exclude_methods: None,
+            headers: Vec::new(),
+            datetime: None,
+            time: None,
+            weekdays: None,
+            path: Template::parse(path),
+            markers: Vec::new(),
+            effects: Effects {
+                status_code: Some(301),
+                target: Some(format!("/target-of-{id}")),
+                ..Effects::default()
+            },
+        }
+    }
+
+    pub fn to_json(&self) -> Value {
+        let full = self.path.text();
+        let (path, query) = match full.find('?') {
+            Some(i) => (full[..i].to_string(), Some(full[i + 1..].to_string())),
+            None => (full.clone(), None),
+        };
+        let mut source = Map::new();
+        source.insert("path".into(), json!(path));
+        if let Some(q) = query {
+            source.insert("query".into(), json!(q));
+        }
+        if let Some(s) = &self.scheme {
+            source.insert("scheme".into(), json!(s));
+        }
+        if let Some(h) = &self.host {
+            source.insert("host".into(), json!(h.text()));
+        }
+        if let Some(ips) = &self.ips {
+            source.insert(
+                "ips".into(),
+                Value::Array(
+                    ips.iter()
+                        .map(|ip| match ip {
+                            IpSpec::In(c) => json!({"in_range": c}),
+                            IpSpec::NotIn(c) => json!({"not_in_range": c}),
+                        })
+                        .collect(),
+                ),
+            );
+        }
+        if let Some(m) = &self.methods {
+            source.insert("methods".into(), json!(m));
+        }
+        if let Some(e) = &self.exclude_methods {
+            source.insert("exclude_methods".into(), json!(e));
+        }
+        if !self.headers.is_empty() {
+            source.insert(
+                "headers".into(),
+                Value::Array(
+                    self.headers
+                        .iter()
+                        .map(|h| json!({"type": h.kind, "name": h.name, "value": h.value.as_ref().map(|v| v.text())}))
+                        .collect(),
+                ),
+            );
+        }
+        if let Some(d) = &self.datetime {
+            source.insert("datetime".into(), json!(d.iter().map(|(a, b)| json!([a, b])).collect::<Vec<_>>()));
+        }
+        if let Some(t) = &self.time {
+            source.insert("time".into(), json!(t.iter().map(|(a, b)| json!([a, b])).collect::<Vec<_>>()));
+        }
+        if let Some(w) = &self.weekdays {
+            source.insert("weekdays".into(), json!(w));
+        }
+        let e = &self.effects;
+        if let Some(c) = &e.response_status_codes {
+            source.insert("response_status_codes".into(), json!(c));
+        }
+        if let Some(x) = &e.exclude_response_status_codes {
+            source.insert("exclude_response_status_codes".into(), json!(x));
+        }
+        if let Some(s) = &e.sampling {
+            source.insert("sampling".into(), json!(s));
+        }
+
+        let mut rule = Map::new();
+        rule.insert("id".into(), json!(self.id));
+        rule.insert("rank".into(), json!(self.rank));
+        rule.insert("source".into(), Value::Object(source));
+        if let Some(t) = &e.target {
+            rule.insert("target".into(), json!(t));
+        }
+        if let Some(s) = &e.status_code {
+            rule.insert("status_code".into(), json!(s));
+        }
+        if !self.markers.is_empty() {
+            rule.insert(
+                "markers".into(),
+                Value::Array(
+                    self.markers
+                        .iter()
+                        .map(|m| json!({"name": m.name, "regex": m.regex, "transformers": m.transformers}))
+                        .collect(),
+                ),
+            );
+        }
+        if !e.variables.is_empty() {
+            rule.insert("variables".into(), json!(e.variables));
+        }
+        if !e.header_filters.is_empty() {
+            rule.insert(
+                "header_filters".into(),
+                Value::Array(
+                    e.header_filters
+                        .iter()
+                        .map(|(a, h, v)| json!({"action": a, "header": h, "value": v}))
+                        .collect(),
+                ),
+            );
+        }
+        if !e.body_filters.is_empty() {
+            rule.insert("body_filters".into(), json!(e.body_filters));
+        }
+        if let Some(l) = &e.log_override {
+            rule.insert("log_override".into(), json!(l));
+        }
+        if let Some(r) = &e.reset {
+            rule.insert("reset".into(), json!(r));
+        }
+        if let Some(s) = &e.stop {
+            rule.insert("stop".into(), json!(s));
+        }
+        if let Some(u) = &e.redirect_unit_id {
+            rule.insert("redirect_unit_id".into(), json!(u));
+        }
+        if let Some(u) = &e.configuration_log_unit_id {
+            rule.insert("configuration_log_unit_id".into(), json!(u));
+        }
+        if let Some(u) = &e.configuration_reset_unit_id {
+            rule.insert("configuration_reset_unit_id".into(), json!(u));
+        }
+        if let Some(ex) = &e.examples {
+            rule.insert("examples".into(), json!(ex));
+        }
+        Value::Object(rule)
+    }
+
+    /// the production path: JSON text -> Rule
+    pub fn to_rule(&self) -> Rule {
+        let text = serde_json::to_string(&self.to_json()).expect("rule json");
+        serde_json::from_str::<Rule>(&text).unwrap_or_else(|e| panic!("harness bug: generated rule does not deserialise: {e}: {text}"))
+    }
+}
+
+// ---------------------------------------------------------------------------------------------
+// request specification
+
+#[derive(Clone, Debug, Serialize, Deserialize, PartialEq, Eq, Hash)]
+pub struct ReqSpec {
+    pub url: String,
+    pub host: Option<String>,
+    pub scheme: Option<String>,
+    pub method: Option<String>,
+    pub ip: Option<String>,
+    pub headers: Vec<(String, String)>,
+    /// RFC 3339
+    pub created_at: Option<String>,
+    pub sampling_override: Option<bool>,
+}
+
+impl ReqSpec {
+    pub fn get(url: &str) -> ReqSpec {
+        ReqSpec {
+            url: url.to_string(),
+            host: None,
+            scheme: None,
+            method: None,
+            ip: None,
+            headers: Vec::new(),
+            created_at: None,
+            sampling_override: None,
+        }
+    }
+
+    /// Build the request exactly as the generated fixtures and the agent do (un-normalised).
+    pub fn build_raw(&self) -> Request {
+        let default_config = RouterConfig::default();
+        let mut request = Request::new(
+            PathAndQueryWithSkipped::from_config(&default_config, self.url.as_str()),
+            self.url.clone(),
+            self.host.clone(),
+            self.scheme.clone(),
+            self.method.clone(),
+            self.ip.as_ref().and_then(|ip| IpAddr::from_str(ip).ok()),
+            self.sampling_override,
+        );
+        for (n, v) in &self.headers {
+            request.add_header(n.clone(), v.clone(), false);
+        }
+        request.created_at = self.created_at.as_ref().and_then(|s| s.parse::<DateTime<Utc>>().ok());
+        request
+    }
+
+    /// raw request, then normalised for the router's configuration
+    pub fn build(&self, config: &RouterConfig) -> Request {
+        Request::rebuild_with_config(config, &self.build_raw())
+    }
+}
+
+// ---------------------------------------------------------------------------------------------
+// world = config + rules
+
+#[derive(Clone, Debug, Serialize, Deserialize)]
+pub struct World {
+    pub cfg: Cfg,
+    pub rules: Vec<RuleSpec>,
+}
+
+impl World {
+    pub fn router(&self) -> Router<Rule> {
+        let mut router = Router::<Rule>::from_config(self.cfg.build());
+        for r in &self.rules {
+            router.insert(r.to_rule());
+        }
+        router
+    }
+}
+
+pub fn ids_of(routes: &[std::sync::Arc<redirectionio::router::Route<Rule>>]) -> Vec<String> {
+    let mut ids: Vec<String> = routes.iter().map(|r| r.id().to_string()).collect();
+    ids.sort();
+    ids
+}
+
+// ---------------------------------------------------------------------------------------------
+// the flat reference predicate
+
+pub fn sanitize_path_literal(s: &str) -> String {
+    // percent-encode exactly: controls, space, '"', '#', '<', '>' and non-ASCII (harness-side, independent)
+    let mut out = String::new();
+    for b in s.bytes() {
+        let enc = b < 0x20 || b == 0x7f || b >= 0x80 || matches!(b, b' ' | b'"' | b'#' | b'<' | b'>');
+        if enc {
+            out.push_str(&format!("%{b:02X}"));
+        } else {
+            out.push(b as char);
+        }
+    }
+    out
+}
+
+/// a rule prepared for the model: regexes compiled once
+pub struct ModelRule {
+    pub spec: RuleSpec,
+    host_re_cs: Option<Regex>,
+    host_re_ci: Option<Regex>,
+    path_re_cs: Option<Regex>,
+    path_re_ci: Option<Regex>,
+    /// per header condition (only match_regex): (case-sensitive, case-insensitive) unanchored regex
+    header_res: Vec<Option<(Regex, Regex)>>,
+    ips: Option<Vec<(bool, cidr::AnyIpCidr)>>,
+    datetime: Option<Vec<(Option<DateTime<Utc>>, Option<DateTime<Utc>>)>>,
+    time: Option<Vec<(Option<NaiveTime>, Option<NaiveTime>)>>,
+    weekdays: Option<Vec<Weekday>>,
+}
+
+fn build_re(src: &str, anchored: bool, ci: bool) -> Option<Regex> {
+    let full = if anchored { format!("^(?:{src})$") } else { src.to_string() };
+    RegexBuilder::new(&full).case_insensitive(ci).build().ok()
+}
+
+impl ModelRule {
+    pub fn new(spec: &RuleSpec) -> ModelRule {
+        let ident = |s: &str| s.to_string();
+        let (host_re_cs, host_re_ci) = match &spec.host {
+            Some(t) if t.has_marker() => {
+                let src = t.regex_source(&spec.markers, &ident);
+                (build_re(&src, true, false), build_re(&src, true, true))
+            }
+            _ => (None, None),
+        };
+        let (path_re_cs, path_re_ci) = if spec.path.has_marker() {
+            let src = spec.path.regex_source(&spec.markers, &|l| sanitize_path_literal(l));
+            (build_re(&src, true, false), build_re(&src, true, true))
+        } else {
+            (None, None)
+        };
+        let header_res = spec
+            .headers
+            .iter()
+            .map(|h| {
+                if h.kind == "match_regex" {
+                    h.value.as_ref().filter(|t| t.has_marker()).and_then(|t| {
+                        let src = t.regex_source(&spec.markers, &ident);
+                        match (build_re(&src, false, false), build_re(&src, false, true)) {
+                            (Some(a), Some(b)) => Some((a, b)),
+                            _ => None,
+                        }
+                    })
+                } else {
+                    None
+                }
+            })
+            .collect();
+        let ips = spec.ips.as_ref().and_then(|list| {
+            let parsed: Vec<(bool, cidr::AnyIpCidr)> = list
+                .iter()
+                .filter_map(|ip| match ip {
+                    IpSpec::In(c) => c.parse::<cidr::AnyIpCidr>().ok().map(|c| (true, c)),
+                    IpSpec::NotIn(c) => c.parse::<cidr::AnyIpCidr>().ok().map(|c| (false, c)),
+                })
+                .collect();
+            if parsed.is_empty() {
+                None
+            } else {
+                Some(parsed)
+            }
+        });
+        let datetime = spec.datetime.as_ref().and_then(|l| {
+            if l.is_empty() {
+                None
+            } else {
+                Some(
+                    l.iter()
+                        .map(|(a, b)| {
+                            (
+                                a.as_ref().and_then(|s| s.parse::<DateTime<Utc>>().ok()),
+                                b.as_ref().and_then(|s| s.parse::<DateTime<Utc>>().ok()),
+                            )
+                        })
+                        .collect(),
+                )
+            }
+        });
+        let time = spec.time.as_ref().and_then(|l| {
+            if l.is_empty() {
+                None
+            } else {
+                Some(
+                    l.iter()
+                        .map(|(a, b)| {
+                            (
+                                a.as_ref().and_then(|s| s.parse::<NaiveTime>().ok()),
+                                b.as_ref().and_then(|s| s.parse::<NaiveTime>().ok()),
+                            )
+                        })
+                        .collect(),
+                )
+            }
+        });
+        let weekdays = spec.weekdays.as_ref().and_then(|l| {
+            let days: Vec<Weekday> = l.iter().filter_map(|d| d.parse::<Weekday>().ok()).collect();
+            if days.is_empty() {
+                None
+            } else {
+                Some(days)
+            }
+        });
+        ModelRule {
+            spec: spec.clone(),
+            host_re_cs,
+            host_re_ci,
+            path_re_cs,
+            path_re_ci,
+            header_res,
+            ips,
+            datetime,
+            time,
+            weekdays,
+        }
+    }
+
+    pub fn is_any_host(&self) -> bool {
+        match &self.spec.host {
+            None => true,
+            Some(t) => t.text().is_empty(),
+        }
+    }
+
+    /// None = any-scheme scope, Some(s) = scope of scheme s
+    pub fn scheme_scope(&self) -> Option<&str> {
+        match &self.spec.scheme {
+            None => None,
+            Some(s) if s.is_empty() => None,
+            Some(s) => Some(s.as_str()),
+        }
+    }
+
+    pub fn sat_scheme(&self, q: &ReqSpec) -> bool {
+        match self.scheme_scope() {
+            None => true,
+            Some(s) => q.scheme.as_deref() == Some(s),
+        }
+    }
+
+    pub fn sat_host(&self, q: &ReqSpec, cfg: &Cfg) -> bool {
+        if self.is_any_host() {
+            return true;
+        }
+        let host = match &q.host {
+            None => return false,
+            Some(h) => h,
+        };
+        let t = self.spec.host.as_ref().unwrap();
+        if t.has_marker() {
+            let re = if cfg.ignore_host_case { &self.host_re_ci } else { &self.host_re_cs };
+            match re {
+                Some(re) => re.is_match(host),
+                None => false,
+            }
+        } else if cfg.ignore_host_case {
+            t.text().to_lowercase() == host.to_lowercase()
+        } else {
+            t.text() == *host
+        }
+    }
+
+    /// number of satisfied ip constraints, None when the rule has no constraint
+    pub fn ip_hits(&self, q: &ReqSpec) -> Option<usize> {
+        let ips = self.ips.as_ref()?;
+        let addr = match q.ip.as_ref().and_then(|s| IpAddr::from_str(s).ok()) {
+            None => return Some(0),
+            Some(a) => a,
+        };
+        Some(ips.iter().filter(|(inside, c)| c.contains(&addr) == *inside).count())
+    }
+
+    pub fn sat_ip(&self, q: &ReqSpec) -> bool {
+        match self.ip_hits(q) {
+            None => true,
+            Some(n) => n > 0,
+        }
+    }
+
+    pub fn sat_method(&self, q: &ReqSpec) -> bool {
+        let method = q.method.as_deref().unwrap_or("GET");
+        match &self.spec.methods {
+            None => true,
+            Some(list) if list.is_empty() => true,
+            Some(list) => {
+                let member = list.iter().any(|m| m == method);
+                if self.spec.exclude_methods.is_some() {
+                    !member
+                } else {
+                    member
+                }
+            }
+        }
+    }
+
+    /// `regex_follows_flag`: whether match_regex conditions are case-insensitive under ignore_header_case
+    /// (the meaning of the flag) or always case-sensitive on the lower-cased value (what the code did)
+    pub fn sat_headers(&self, q: &ReqSpec, cfg: &Cfg, regex_follows_flag: bool) -> bool {
+        let ic = cfg.ignore_header_case;
+        let norm = |s: &str| if ic { s.to_lowercase() } else { s.to_string() };
+        for (i, h) in self.spec.headers.iter().enumerate() {
+            let values: Vec<String> = q
+                .headers
+                .iter()
+                .filter(|(n, _)| n.to_lowercase() == h.name.to_lowercase())
+                .map(|(_, v)| norm(v))
+                .collect();
+            let wanted = h.value.as_ref().map(|t| norm(&t.text()));
+            let ok = match (h.kind.as_str(), &wanted) {
+                ("is_defined", _) => !values.is_empty(),
+                ("is_not_defined", _) => values.is_empty(),
+                ("is_equals", Some(w)) => values.iter().any(|v| v == w),
+                ("is_not_equal_to", Some(w)) => values.iter().all(|v| v != w),
+                ("contains", Some(w)) => values.iter().any(|v| v.contains(w.as_str())),
+                ("does_not_contain", Some(w)) => values.iter().all(|v| !v.contains(w.as_str())),
+                ("ends_with", Some(w)) => values.iter().any(|v| v.ends_with(w.as_str())),
+                ("starts_with", Some(w)) => values.iter().any(|v| v.starts_with(w.as_str())),
+                ("match_regex", Some(_)) => match &self.header_res[i] {
+                    // a match_regex value without marker reference yields no condition at all
+                    None => true,
+                    Some((cs, ci)) => {
+                        let re = if ic && regex_follows_flag { ci } else { cs };
+                        values.iter().any(|v| re.is_match(v))
+                    }
+                },
+                // unknown kinds and value-less comparisons are skipped by the rule loader
+                _ => true,
+            };
+            if !ok {
+                return false;
+            }
+        }
+        true
+    }
+
+    pub fn has_time_constraint(&self) -> bool {
+        self.datetime.is_some() || self.time.is_some() || self.weekdays.is_some()
+    }
+
+    pub fn sat_datetime(&self, q: &ReqSpec) -> bool {
+        if !self.has_time_constraint() {
+            return true;
+        }
+        let at = match q.created_at.as_ref().and_then(|s| s.parse::<DateTime<Utc>>().ok()) {
+            None => return false,
+            Some(t) => t,
+        };
+        if let Some(ranges) = &self.datetime {
+            let ok = ranges.iter().any(|(a, b)| a.map(|a| at >= a).unwrap_or(true) && b.map(|b| at < b).unwrap_or(true));
+            if !ok {
+                return false;
+            }
+        }
+        if let Some(ranges) = &self.time {
+            let t = at.naive_utc().time();
+            let ok = ranges.iter().any(|(a, b)| a.map(|a| t >= a).unwrap_or(true) && b.map(|b| t < b).unwrap_or(true));
+            if !ok {
+                return false;
+            }
+        }
+        if let Some(days) = &self.weekdays {
+            if !days.contains(&at.weekday()) {
+                return false;
+            }
+        }
+        true
+    }
+
+    pub fn sat_path(&self, q: &ReqSpec, cfg: &Cfg) -> bool {
+        // requests of this world use normalisation-stable URLs: the matching form is the sanitised URL
+        let url = sanitize_path_literal(&q.url);
+        if self.spec.path.has_marker() {
+            let re = if cfg.ignore_path_and_query_case { &self.path_re_ci } else { &self.path_re_cs };
+            let hay = if cfg.ignore_path_and_query_case { url.to_lowercase() } else { url };
+            match re {
+                Some(re) => re.is_match(&hay),
+                None => false,
+            }
+        } else {
+            let rule_path = sanitize_path_literal(&self.spec.path.text());
+            if cfg.ignore_path_and_query_case {
+                rule_path.to_lowercase() == url.to_lowercase()
+            } else {
+                rule_path == url
+            }
+        }
+    }
+
+    pub fn sat_all_but_host(&self, q: &ReqSpec, cfg: &Cfg, regex_follows_flag: bool) -> bool {
+        self.sat_scheme(q)
+            && self.sat_ip(q)
+            && self.sat_method(q)
+            && self.sat_headers(q, cfg, regex_follows_flag)
+            && self.sat_datetime(q)
+            && self.sat_path(q, cfg)
+    }
+
+    /// name of the first trigger rejecting the request (coverage accounting)
+    pub fn first_rejecting_trigger(&self, q: &ReqSpec, cfg: &Cfg) -> Option<&'static str> {
+        if !self.sat_scheme(q) {
+            return Some("scheme");
+        }
+        if !self.sat_host(q, cfg) {
+            return Some("host");
+        }
+        if !self.sat_ip(q) {
+            return Some("ip");
+        }
+        if !self.sat_method(q) {
+            return Some("method");
+        }
+        if !self.sat_headers(q, cfg, true) {
+            return Some("headers");
+        }
+        if !self.sat_datetime(q) {
+            return Some("datetime");
+        }
+        if !self.sat_path(q, cfg) {
+            return Some("path");
+        }
+        None
+    }
+}
+
+pub struct Model {
+    pub cfg: Cfg,
+    pub rules: Vec<ModelRule>,
+}
+
+#[derive(Default, Debug)]
+pub struct ModelTrace {
+    pub any_host_fallback_taken: u32,
+    pub any_host_fallback_suppressed: u32,
+}
+
+impl Model {
+    pub fn new(cfg: &Cfg, rules: &[RuleSpec]) -> Model {
+        Model {
+            cfg: cfg.clone(),
+            rules: rules.iter().map(ModelRule::new).collect(),
+        }
+    }
+
+    /// set of ids (sorted) expected from match_request, per the statement of C01
+    pub fn expected(&self, q: &ReqSpec, regex_follows_flag: bool, trace: &mut ModelTrace) -> Vec<String> {
+        let mut out: Vec<String> = Vec::new();
+        // scopes: any-scheme, and the request's scheme
+        let mut scopes: Vec<Option<String>> = vec![None];
+        if let Some(s) = &q.scheme {
+            if !s.is_empty() {
+                scopes.push(Some(s.clone()));
+            }
+        }
+        for scope in scopes {
+            let in_scope: Vec<&ModelRule> = self
+                .rules
+                .iter()
+                .filter(|r| r.scheme_scope().map(|s| s.to_string()) == scope)
+                .collect();
+            let host_bound: Vec<&ModelRule> = in_scope
+                .iter()
+                .copied()
+                .filter(|r| !r.is_any_host() && r.sat_host(q, &self.cfg) && r.sat_all_but_host(q, &self.cfg, regex_follows_flag))
+                .collect();
+            let any_host: Vec<&ModelRule> = in_scope
+                .iter()
+                .copied()
+                .filter(|r| r.is_any_host() && r.sat_all_but_host(q, &self.cfg, regex_follows_flag))
+                .collect();
+            for r in &host_bound {
+                out.push(r.spec.id.clone());
+            }
+            if self.cfg.always_match_any_host || host_bound.is_empty() {
+                if !any_host.is_empty() && !self.cfg.always_match_any_host {
+                    trace.any_host_fallback_taken += 1;
+                }
+                for r in &any_host {
+                    out.push(r.spec.id.clone());
+                }
+            } else if !any_host.is_empty() {
+                trace.any_host_fallback_suppressed += 1;
+            }
+        }
+        out.sort();
+        out
+    }
+}
+
+// ---------------------------------------------------------------------------------------------
+// pools (deliberately tiny, so that buckets, prefixes and boundary values collide often)
+
+pub const T1: &str = "2024-01-10T12:00:00Z"; // Wednesday
+pub const T2: &str = "2024-01-11T12:00:00Z"; // Thursday
+pub const T3: &str = "2024-01-13T00:00:00Z"; // Saturday
+
+pub fn request_instants() -> Vec<Option<String>> {
+    vec![
+        None,
+        Some("2024-01-10T11:59:59Z".into()),
+        Some(T1.into()),
+        Some("2024-01-11T11:59:59.999999999Z".into()),
+        Some(T2.into()),
+        Some("2024-01-12T23:59:59Z".into()),
+        Some(T3.into()),
+        Some("2024-01-13T08:00:00Z".into()),
+        Some("2024-01-15T07:59:59Z".into()),
+        Some("2024-01-10T23:30:00+01:00".into()),
+    ]
+}
+
+pub fn request_hosts() -> Vec<Option<String>> {
+    [
+        None,
+        Some("example.org"),
+        Some("EXAMPLE.ORG"),
+        Some("Example.org"),
+        Some("www.example.org"),
+        Some("api.example.org"),
+        Some("api.example.net"),
+        Some("API.Example.Net"),
+        Some("other.net"),
+        Some("www.shop.org"),
+        Some("nomatch.invalid"),
+        Some(""),
+    ]
+    .iter()
+    .map(|h| h.map(|s| s.to_string()))
+    .collect()
+}
+
+pub fn request_ips() -> Vec<Option<String>> {
+    [
+        None,
+        Some("10.1.2.3"),
+        Some("10.2.0.1"),
+        Some("192.168.1.7"),
+        Some("192.168.2.7"),
+        Some("8.8.8.8"),
+        Some("2001:db8::1"),
+        Some("::1"),
+    ]
+    .iter()
+    .map(|h| h.map(|s| s.to_string()))
+    .collect()
+}
+
+pub fn request_methods() -> Vec<Option<String>> {
+    [None, Some("GET"), Some("POST"), Some("PUT"), Some("get")]
+        .iter()
+        .map(|h| h.map(|s| s.to_string()))
+        .collect()
+}
+
+pub fn request_schemes() -> Vec<Option<String>> {
+    [None, Some("http"), Some("https"), Some("ftp"), Some("")]
+        .iter()
+        .map(|h| h.map(|s| s.to_string()))
+        .collect()
+}
+
+pub fn request_urls() -> Vec<String> {
+    [
+        "/a", "/A", "/a/b", "/a/B", "/a/12", "/a/12/c", "/a/12/C", "/a/xy", "/a/XY", "/xy/b", "/a?x=1", "/a?x=1&y=2", "/a?x=2", "/b", "/c", "/a/", "/a/12/d",
+        "/a/b/c", "/", "/a/x-y",
+    ]
+    .iter()
+    .map(|s| s.to_string())
+    .collect()
+}
+
+pub fn request_header_lists() -> Vec<Vec<(String, String)>> {
+    let h = |pairs: &[(&str, &str)]| pairs.iter().map(|(a, b)| (a.to_string(), b.to_string())).collect::<Vec<_>>();
+    vec![
+        h(&[]),
+        h(&[("X-A", "Foo")]),
+        h(&[("x-a", "foo")]),
+        h(&[("X-A", "Bar")]),
+        h(&[("X-A", "")]),
+        h(&[("X-A", "Foo"), ("X-A", "Bar")]),
+        h(&[("X-A", "Bar"), ("x-a", "Foo")]),
+        h(&[("X-B", "Foo")]),
+        h(&[("X-B", "boo"), ("X-B", "zzz")]),
+        h(&[("X-B", "zzz")]),
+        h(&[("X-C", "bar")]),
+        h(&[("X-C", "v12")]),
+        h(&[("X-C", "V12 Bar")]),
+        h(&[("X-A", "Foo"), ("X-B", "Foo"), ("X-C", "bar")]),
+        h(&[("X-A", "ab-x"), ("X-C", "xv7x")]),
+        h(&[("x-a", "AB-X"), ("x-b", "FOO"), ("x-c", "BAR")]),
+        h(&[("X-A", "Foo"), ("X-C", "v12")]),
+        h(&[("X-B", "Food"), ("X-C", "car")]),
+    ]
+}
+
+fn marker_pool() -> Vec<MarkerSpec> {
+    vec![
+        MarkerSpec { name: "n".into(), regex: "[0-9]+".into(), transformers: vec![] },
+        MarkerSpec { name: "w".into(), regex: "([\\p{Ll}]|\\-)+?".into(), transformers: vec![] },
+        MarkerSpec { name: "sub".into(), regex: "[a-z]+".into(), transformers: vec![] },
+        MarkerSpec { name: "tld".into(), regex: "(com|net|org)".into(), transformers: vec![] },
+        MarkerSpec { name: "any".into(), regex: ".+?".into(), transformers: vec![] },
+        MarkerSpec { name: "up".into(), regex: "([A-Z]+?)".into(), transformers: vec![] },
+    ]
+}
+
+pub fn scheme_pool() -> Vec<Option<String>> {
+    vec![None, None, Some("".into()), Some("http".into()), Some("https".into())]
+}
+
+pub fn host_pool() -> Vec<Option<Template>> {
+    vec![
+        None,
+        None,
+        None,
+        Some(Template::lit("")),
+        Some(Template::lit("example.org")),
+        Some(Template::lit("Example.org")),
+        Some(Template::lit("www.example.org")),
+        Some(Template::lit("other.net")),
+        Some(Template::parse("@sub.example.org")),
+        Some(Template::parse("@sub.example.@tld")),
+        Some(Template::parse("www.@sub.org")),
+        Some(Template::parse("@sub.Example.@tld")),
+    ]
+}
+
+pub fn ip_pool() -> Vec<Option<Vec<IpSpec>>> {
+    use IpSpec::{In, NotIn};
+    vec![
+        None,
+        None,
+        None,
+        Some(vec![In("10.0.0.0/8".into())]),
+        Some(vec![In("10.1.0.0/16".into())]),
+        Some(vec![NotIn("10.0.0.0/8".into())]),
+        Some(vec![In("192.168.1.0/24".into())]),
+        Some(vec![In("2001:db8::/32".into())]),
+        Some(vec![In("10.1.2.3".into())]),
+        Some(vec![In("10.0.0.0/8".into()), In("10.1.0.0/16".into())]),
+        Some(vec![In("10.1.0.0/16".into()), In("192.168.1.0/24".into())]),
+        Some(vec![In("192.168.1.0/24".into()), NotIn("10.0.0.0/8".into())]),
+        Some(vec![In("10.0.0.0/8".into()), In("10.1.0.0/16".into()), In("10.1.2.3/32".into())]),
+        Some(vec![]),
+    ]
+}
+
+pub fn method_pool() -> Vec<(Option<Vec<String>>, Option<bool>)> {
+    let m = |l: &[&str]| Some(l.iter().map(|s| s.to_string()).collect::<Vec<_>>());
+    vec![
+        (None, None),
+        (None, None),
+        (None, None),
+        (m(&[]), None),
+        (m(&["GET"]), None),
+        (m(&["POST"]), None),
+        (m(&["GET", "POST"]), None),
+        (m(&["GET", "GET"]), None),
+        (m(&["GET"]), Some(true)),
+        (m(&["POST", "PUT"]), Some(true)),
+        (m(&[]), Some(true)),
+        (None, Some(true)),
+    ]
+}
+
+pub fn header_cond_pool() -> Vec<HeaderCond> {
+    let c = |name: &str, kind: &str, value: Option<&str>| HeaderCond {
+        name: name.to_string(),
+        kind: kind.to_string(),
+        value: value.map(Template::parse),
+    };
+    vec![
+        c("X-A", "is_defined", None),
+        c("x-a", "is_not_defined", None),
+        c("X-A", "is_equals", Some("Foo")),
+        c("X-A", "is_not_equal_to", Some("Foo")),
+        c("X-B", "contains", Some("oo")),
+        c("X-B", "does_not_contain", Some("oo")),
+        c("X-B", "starts_with", Some("Fo")),
+        c("X-C", "ends_with", Some("ar")),
+        c("X-C", "match_regex", Some("v@n")),
+        c("X-A", "match_regex", Some("@w-x")),
+        c("X-C", "match_regex", Some("V@n")),
+        c("X-C", "weird_kind", Some("zz")),
+        c("X-C", "is_equals", None),
+    ]
+}
+
+pub fn datetime_pool() -> Vec<Option<Vec<(Option<String>, Option<String>)>>> {
+    let s = |x: &str| Some(x.to_string());
+    vec![
+        None,
+        None,
+        None,
+        None,
+        Some(vec![(None, s(T1))]),
+        Some(vec![(s(T1), s(T2))]),
+        Some(vec![(s(T2), None)]),
+        Some(vec![(s(T1), s(T3))]),
+        Some(vec![(s(T2), s(T1))]),
+        Some(vec![(None, s(T1)), (s(T2), s(T3))]),
+        Some(vec![]),
+    ]
+}
+
+pub fn time_pool() -> Vec<Option<Vec<(Option<String>, Option<String>)>>> {
+    let s = |x: &str| Some(x.to_string());
+    vec![
+        None,
+        None,
+        None,
+        None,
+        None,
+        Some(vec![(s("08:00:00"), s("12:00:00"))]),
+        Some(vec![(s("12:00:00"), None)]),
+        Some(vec![(None, s("12:00:00"))]),
+        Some(vec![(s("23:00:00"), s("01:00:00"))]),
+    ]
+}
+
+pub fn weekday_pool() -> Vec<Option<Vec<String>>> {
+    let w = |l: &[&str]| Some(l.iter().map(|s| s.to_string()).collect::<Vec<_>>());
+    vec![None, None, None, None, None, w(&["Wed"]), w(&["Wed", "Thu"]), w(&["Sat", "Sun"]), w(&["Funday"]), w(&["monday", "Thursday"])]
+}
+
+pub fn path_pool() -> Vec<Template> {
+    [
+        "/a", "/a", "/a/b", "/A", "/a?x=1", "/a?x=1&y=2", "/b", "/a/@n", "/a/@n/c", "/a/@w", "/@w/b", "/a/@n/@w", "/a/@any", "/A/@n", "/a/@up", "/a?x=@n",
+    ]
+    .iter()
+    .map(|s| Template::parse(s))
+    .collect()
+}
+
+/// random rule over the pools; `layers` bounds how many optional trigger layers are constrained
+pub fn random_rule(rng: &mut Rng, id: &str) -> RuleSpec {
+    let mut r = RuleSpec::simple(id, "/a");
+    r.rank = *rng.pick(&[0u16, 0, 1, 2, 5, 10]);
+    r.path = rng.pick(&path_pool()).clone();
+    r.markers = marker_pool();
+    if rng.chance(1, 2) {
+        r.scheme = rng.pick(&scheme_pool()).clone();
+    }
+    if rng.chance(2, 3) {
+        r.host = rng.pick(&host_pool()).clone();
+    }
+    if rng.chance(1, 3) {
+        r.ips = rng.pick(&ip_pool()).clone();
+    }
+    if rng.chance(1, 3) {
+        let (m, e) = rng.pick(&method_pool()).clone();
+        r.methods = m;
+        r.exclude_methods = e;
+    }
+    if rng.chance(1, 3) {
+        let pool = header_cond_pool();
+        let n = rng.range(1, 3);
+        for _ in 0..n {
+            r.headers.push(rng.pick(&pool).clone());
+        }
+    }
+    if rng.chance(1, 4) {
+        r.datetime = rng.pick(&datetime_pool()).clone();
+    }
+    if rng.chance(1, 5) {
+        r.time = rng.pick(&time_pool()).clone();
+    }
+    if rng.chance(1, 5) {
+        r.weekdays = rng.pick(&weekday_pool()).clone();
+    }
+    // keep only the markers actually referenced somewhere (plus sometimes an unused one)
+    let mut used: Vec<String> = r.path.marker_names();
+    if let Some(h) = &r.host {
+        used.extend(h.marker_names());
+    }
+    for h in &r.headers {
+        if let Some(v) = &h.value {
+            used.extend(v.marker_names());
+        }
+    }
+    let keep_unused = rng.chance(1, 6);
+    r.markers.retain(|m| used.contains(&m.name) || (keep_unused && m.name == "any"));
+    r
+}
+
+pub fn random_request(rng: &mut Rng) -> ReqSpec {
+    ReqSpec {
+        url: rng.pick(&request_urls()).clone(),
+        host: rng.pick(&request_hosts()).clone(),
+        scheme: rng.pick(&request_schemes()).clone(),
+        method: rng.pick(&request_methods()).clone(),
+        ip: rng.pick(&request_ips()).clone(),
+        headers: rng.pick(&request_header_lists()).clone(),
+        created_at: rng.pick(&request_instants()).clone(),
+        sampling_override: None,
+    }
+}
+
+/// Bend `base` towards satisfying `rule`, one trigger dimension at a time (generation aid only).
+pub fn witness_for(rule: &ModelRule, cfg: &Cfg, base: &ReqSpec, rng: &mut Rng) -> ReqSpec {
+    let mut q = base.clone();
+    // scheme
+    if !rule.sat_scheme(&q) {
+        q.scheme = rule.scheme_scope().map(|s| s.to_string());
+    }
+    // host
+    if !rule.sat_host(&q, cfg) {
+        let mut pool = request_hosts();
+        rng.shuffle(&mut pool);
+        for h in pool {
+            let mut c = q.clone();
+            c.host = h;
+            if rule.sat_host(&c, cfg) {
+                q = c;
+                break;
+            }
+        }
+    }
+    if !rule.sat_ip(&q) {
+        let mut pool = request_ips();
+        rng.shuffle(&mut pool);
+        for ip in pool {
+            let mut c = q.clone();
+            c.ip = ip;
+            if rule.sat_ip(&c) {
+                q = c;
+                break;
+            }
+        }
+    }
+    if !rule.sat_method(&q) {
+        let mut pool = request_methods();
+        rng.shuffle(&mut pool);
+        for m in pool {
+            let mut c = q.clone();
+            c.method = m;
+            if rule.sat_method(&c) {
+                q = c;
+                break;
+            }
+        }
+    }
+    if !rule.sat_headers(&q, cfg, true) {
+        let mut pool = request_header_lists();
+        rng.shuffle(&mut pool);
+        for h in pool {
+            let mut c = q.clone();
+            c.headers = h;
+            if rule.sat_headers(&c, cfg, true) {
+                q = c;
+                break;
+            }
+        }
+    }
+    if !rule.sat_datetime(&q) {
+        let mut pool = request_instants();
+        rng.shuffle(&mut pool);
+        for t in pool {
+            let mut c = q.clone();
+            c.created_at = t;
+            if rule.sat_datetime(&c) {
+                q = c;
+                break;
+            }
+        }
+    }
+    if !rule.sat_path(&q, cfg) {
+        let mut pool = request_urls();
+        rng.shuffle(&mut pool);
+        for u in pool {
+            let mut c = q.clone();
+            c.url = u;
+            if rule.sat_path(&c, cfg) {
+                q = c;
+                break;
+            }
+        }
+    }
+    q
+}
+
+/// single-trigger mutation of a request
+pub fn mutate_request(q: &ReqSpec, rng: &mut Rng) -> (ReqSpec, &'static str) {
+    let mut m = q.clone();
+    let dim = match rng.below(7) {
+        0 => {
+            m.scheme = rng.pick(&request_schemes()).clone();
+            "scheme"
+        }
+        1 => {
+            m.host = rng.pick(&request_hosts()).clone();
+            "host"
+        }
+        2 => {
+            m.ip = rng.pick(&request_ips()).clone();
+            "ip"
+        }
+        3 => {
+            m.method = rng.pick(&request_methods()).clone();
+            "method"
+        }
+        4 => {
+            m.headers = rng.pick(&request_header_lists()).clone();
+            "headers"
+        }
+        5 => {
+            m.created_at = rng.pick(&request_instants()).clone();
+            "datetime"
+        }
+        _ => {
+            m.url = rng.pick(&request_urls()).clone();
+            "path"
+        }
+    };
+    (m, dim)
+}
+
+/// probe requests derived from the rule set: a witness per rule, mutations of it, and random ones
+pub fn probes_for(model: &Model, rng: &mut Rng, per_rule: usize, random: usize) -> Vec<(ReqSpec, &'static str)> {
+    let mut out = Vec::new();
+    for rule in &model.rules {
+        let base = random_request(rng);
+        let w = witness_for(rule, &model.cfg, &base, rng);
+        for _ in 0..per_rule {
+            out.push(mutate_request(&w, rng));
+        }
+        out.push((w, "witness"));
+    }
+    for _ in 0..random {
+        out.push((random_request(rng), "random"));
+    }
+    out
+}
